@@ -1,5 +1,5 @@
 Definition init_state (stmt start : Z) (threads modules : bool) : state :=
-  mkState Created false false None [] [] None 0%nat None false None false false None
+  mkState Created false false None [] [] None 0%nat false None false None false false None
           stmt start threads modules 0%nat None [] false [].
 
 (** ---- logging ---- *)
@@ -105,7 +105,8 @@ Definition enter_run (s : state) (t : nat) (c : call) : state :=
   | Initialized =>
     let s1 := set_st_fsm s Running in
     (* Callback.start_run *)
-    let s2 := set_run_owner (set_started_ev (set_run_finished (set_runt s1 (Some RT_New)) (Some false)) false) t in
+    let s2 := set_run_cont (set_run_owner (set_started_ev (set_run_finished (set_runt s1 (Some RT_New)) (Some false)) false) t)
+                           (is_cont c) in
     set_pc s2 t c R_WaitStarted
   | _ => refuse s t c
   end.
@@ -187,7 +188,7 @@ Definition do_call (s : state) (t : nat) (c : call) : state :=
   match find_task (tasks s) t with
   | Some _ => s                        (* the task is busy: not a possible label *)
   | None =>
-    let s0 := s in
+    let s0 := set_trace s (EvCall t c :: trace s) in
     match c with
     | CStart =>
       if nl_started s0 then finish_call s0 t c ROk
@@ -287,9 +288,10 @@ Definition run_call_pending (s : state) : bool :=
   | None => false
   end.
 
-(** Continue.on_start_run: only the plugin of the request that started this run *)
-Definition arm (owner : nat) (l : list (nat * bool)) : list (nat * bool) :=
-  map (fun x => (fst x, snd x || Nat.eqb (fst x) owner)) l.
+(** Continue.on_start_run: only the plugin of the request that started this run
+    (`_REQUESTING.get() is self` in the context the run task inherited) *)
+Definition arm (requested : bool) (owner : nat) (l : list (nat * bool)) : list (nat * bool) :=
+  map (fun x => (fst x, snd x || (requested && Nat.eqb (fst x) owner))) l.
 
 (** Continue.on_finished of every registered plugin whose run started:
     unregister itself, then Continuous.disable() *)
@@ -335,7 +337,7 @@ Definition do_step_run (s : state) : state :=
     | Some ra =>
       let s2 := publish s1 (PRunInfo (ra_no ra) RRunning (ra_stmt ra) None) in
       let s3 := log_hook s2 HStartRun (Some (ra_stmt ra)) None in
-      set_runt (set_cont_plugins s3 (arm (run_owner s3) (cont_plugins s3))) (Some RT_G_start)
+      set_runt (set_cont_plugins s3 (arm (run_cont s3) (run_owner s3) (cont_plugins s3))) (Some RT_G_start)
     | None => run_finish s1
     end
   | Some RT_G_start => set_runt (set_started_ev s true) (Some RT_WaitChild)
